@@ -11,7 +11,7 @@ synthetic TU) and every flagged class T:
 F(T) = value of T::pdu_flag as name lookup in T finds it,
 P(K) = what the final overrider of pdu_type() returns for dynamic type K,
 A(K) = the set of flags the final overrider of matches_flag accepts for
-       dynamic type K, read from its body with a five-production grammar.
+       dynamic type K, read from its body with a small grammar.
 """
 from vlib import facts
 from vlib.facts import strip, AnalysisBroken
@@ -67,21 +67,58 @@ class Eval(object):
         return None
 
     def ptype(self, K, depth=0):
-        """P(K): (value, description) or raises AnalysisBroken"""
+        """P(K): {value: description}, the set of values pdu_type() may return
+        for dynamic type K, or raises AnalysisBroken.  A body made of
+        if/return statements and ?: expressions contributes every arm whose
+        condition is not a compile-time constant (both outcomes are taken to be
+        reachable: the condition reads object state)."""
         f = final_overrider(self.db, K, "pdu_type")
         if f is None:
             raise AnalysisBroken("no pdu_type() overrider found for %s" % K)
-        e = ret_expr(f)
-        if e is None:
-            raise AnalysisBroken("pdu_type() of %s (%s) is not a single return" % (K, facts.loc(f)))
+        body = f.get("body")
+        if not body or body["k"] != "CompoundStmt":
+            raise AnalysisBroken("pdu_type() of %s (%s) has no body" % (K, facts.loc(f)))
+        out = {}
+        self.ptype_stmts(K, f, body, depth, out)
+        if not out:
+            raise AnalysisBroken("pdu_type() of %s (%s) has no return" % (K, facts.loc(f)))
+        return out
+
+    def ptype_stmts(self, K, f, st, depth, out):
+        k = st["k"]
+        if k == "CompoundStmt":
+            for c in st.get("c", []):
+                self.ptype_stmts(K, f, c, depth, out)
+        elif k == "ReturnStmt" and st.get("c"):
+            self.ptype_expr(K, f, st["c"][0], depth, out)
+        elif k == "IfStmt":
+            for c in st["c"][1:]:
+                self.ptype_stmts(K, f, c, depth, out)
+        else:
+            raise AnalysisBroken("pdu_type() of %s (%s) is outside the grammar: statement %s"
+                                 % (K, facts.loc(f, st), k))
+
+    def ptype_expr(self, K, f, e, depth, out):
         if facts.cval(e) is not None:
-            return facts.cval(e), "%s returns constant %s" % (f["id"], facts.cval(e))
+            out.setdefault(facts.cval(e), "%s returns constant %s" % (f["id"], facts.cval(e)))
+            return
         e = strip(e)
+        if e["k"] == "ConditionalOperator":
+            cv = facts.cval(e["c"][0])
+            arms = [e["c"][1], e["c"][2]] if cv is None else [e["c"][1] if cv else e["c"][2]]
+            sub = {}
+            for a in arms:
+                self.ptype_expr(K, f, a, depth, sub)
+            for v, d in sub.items():
+                out.setdefault(v, d + (" in one arm of `%s`, whose condition reads object state"
+                                       % facts.expr_str(e) if cv is None else ""))
+            return
         if e["k"] == "CXXMemberCallExpr" and e.get("cname") == "pdu_type" and depth < 3:
             T = self.member_record(f, e)
             if T:
-                v, d = self.ptype(T, depth + 1)
-                return v, "%s forwards to member of type %s: %s" % (f["id"], T, d)
+                for v, d in self.ptype(T, depth + 1).items():
+                    out.setdefault(v, "%s forwards to member of type %s: %s" % (f["id"], T, d))
+                return
         raise AnalysisBroken("pdu_type() of %s (%s) is outside the grammar: %s"
                              % (K, facts.loc(f), facts.expr_str(e)))
 
@@ -119,8 +156,8 @@ class Eval(object):
                         return {yv: "%s: flag == constant %s" % (facts.loc(f, e), yv)}
                     if y0["k"] == "CXXMemberCallExpr" and y0.get("cname") == "pdu_type" and \
                             strip(y0["c"][0]["c"][0])["k"] == "CXXThisExpr":
-                        v, d = self.ptype(K)
-                        return {v: "%s: flag == pdu_type() [%s]" % (facts.loc(f, e), d)}
+                        return dict((v, "%s: flag == pdu_type() [%s]" % (facts.loc(f, e), d))
+                                    for v, d in self.ptype(K).items())
         if e["k"] == "CXXMemberCallExpr" and e.get("cname") == "matches_flag" and depth < 8:
             arg = strip(e["c"][1])
             if arg["k"] == "DeclRefExpr" and arg.get("var") == pvar:
@@ -136,7 +173,7 @@ class Eval(object):
                 if T:
                     # forwarding to a member object whose dynamic type is its static type
                     return self.accepted(T, depth + 1)
-        raise AnalysisBroken("matches_flag body %s is outside the five-production grammar: %s"
+        raise AnalysisBroken("matches_flag body %s is outside the small grammar: %s"
                              % (facts.loc(f, e), facts.expr_str(e)))
 
 
@@ -229,13 +266,13 @@ def run(db, rep, tier):
     for K in K_all:
         try:
             A = ev.accepted(K)
-            P, pd = ev.ptype(K)
+            Pset = ev.ptype(K)
         except AnalysisBroken as e:
             rep.analysis_broken(str(e))
             continue
         bases = set([K] + db.all_bases(K))
         site = facts.loc(final_overrider(db, K, "matches_flag"))
-        table.append(dict(K=K, F=F.get(K), P=P, A=sorted(A)))
+        table.append(dict(K=K, F=F.get(K), P=sorted(Pset), A=sorted(A)))
         for T, fv in T_all:
             key = "K=%s,T=%s" % (K, T)
             if not (T in bases) and cacher_shares_flag(db, K, T, F, A_of):
@@ -250,7 +287,8 @@ def run(db, rep, tier):
                                   % (K, fv, T, A[fv], T, K, T))
             else:
                 rep.ok("sound-find", key, site, "flag %s of %s not accepted by %s" % (fv, T, K))
-            if fv == P:
+            if fv in Pset:
+                P, pd = fv, Pset[fv]
                 if T in bases:
                     rep.ok("sound-cast", key, site, "pdu_type()==%s and %s is a base of / is %s" % (P, T, K))
                 else:
@@ -259,10 +297,17 @@ def run(db, rep, tier):
                                   "%s or one of its bases: tins_cast<%s*> static_casts it to the wrong type"
                                   % (K, P, T, pd, T, K, T))
             else:
-                rep.ok("sound-cast", key, site, "pdu_type() %s != flag %s of %s" % (P, fv, T))
+                rep.ok("sound-cast", key, site, "pdu_type() in %s, never flag %s of %s" % (sorted(Pset), fv, T))
         if K in F:
-            if F[K] in A:
+            own_always = F[K] in A and not (len(Pset) > 1 and "pdu_type()" in A[F[K]])
+            if own_always:
                 rep.ok("own", "K=%s" % K, site, "own flag %s accepted: %s" % (F[K], A[F[K]]))
+            elif F[K] in A:
+                rep.violation("own", "K=%s" % K, site,
+                              "find_pdu<%s>() on an object of exactly that class can fail: own flag %s is accepted only "
+                              "through flag == pdu_type(), and pdu_type() may also return %s [%s]"
+                              % (K, F[K], sorted(v for v in Pset if v != F[K]),
+                                 "; ".join(Pset[v] for v in Pset if v != F[K])))
             else:
                 rep.violation("own", "K=%s" % K, site,
                               "find_pdu<%s>() on an object of exactly that class fails: own flag %s is not in the "
@@ -276,7 +321,7 @@ def run(db, rep, tier):
     rep.explanation = ("Exhaustive over the finite quantifier of C13: %d concrete classes K (including %d "
                        "PDUCacher<K> instantiations made in a synthetic TU) x %d flagged classes T. F, P and A are "
                        "computed from the resolved declarations and the bodies of the final overriders of "
-                       "pdu_type()/matches_flag(); any body outside the grammar {flag==const, flag==pdu_type(), "
+                       "pdu_type()/matches_flag(); any body outside the grammar {pdu_type: return const | c?a:b | if/return | member.pdu_type(); matches_flag: flag==const, flag==pdu_type(), "
                        "a||b, Base::matches_flag(flag), member.matches_flag(flag)} aborts the analysis (exit 2)."
                        % (len(K_all), len(cachers), len(T_all)))
     rep.assumptions += ["user-defined PDU subclasses outside libtins are not part of the quantifier",
